@@ -144,6 +144,15 @@ def check_repeat(ctx, cfg, db, name, n, kind):
             n_ok = True
         ok = once and len(fe) == 1 and fe[0].args[0] == xs[0].ret and n_ok and len(tv) == 1 and tv[0].args[0] == fe[0].ret and len(uw) == 1 and uw[0].args[0] == tv[0].ret and a.tenv.length(tv[0].targs[1]) == Poly.const(n)
         det = "x() evaluated once: %s; vec::from_elem(x(), n) -> try_from_vec::<_, U%d> -> unwrap: %s" % (once, n, ok)
+        if not ok and once and len(fe) == 1 and fe[0].args[0] == xs[0].ret and n_ok and not tv:
+            # the list form's path: the Vec of n clones goes to ONE hidden helper of the library (`GenericArray::__*`, judged by C20.H / C15.D:
+            # it adopts a Vec of exactly N items as the box) instantiated at N = U<n>, every const length argument being n as well - so the
+            # helper's unchecked precondition vec.len() == N holds by construction: from_elem's count is that same n
+            helper = [c for c in a.calls if c.fn.split("::")[-1].startswith("__") and "GenericArray" in c.fn and len(c.targs) > 1 and a.tenv.length(c.targs[1]) is not None]
+            cnt_is_n = cnt[0] == "V" or (cnt[0] == "I" and cnt[1] == Poly.const(n))
+            ok = (len(helper) == 1 and a.tenv.length(helper[0].targs[1]) == Poly.const(n) and all(t.get("k") != "int" or t["v"] == n for t in helper[0].targs[2:])
+                  and fe[0].ret in helper[0].args and cnt_is_n and bool(a.returns) and all(r["val"] == helper[0].ret for r in a.returns))
+            det = "x() evaluated once: %s; vec::from_elem(x(), %d) handed to one hidden helper %s with N = U%d (the helper's body: C20.H), result returned: %s" % (once, n, helper[0].fn.split("::")[-1] if helper else "?", n, ok)
     else:
         reps = [s for s in a.assigns if s["val"][0] == "A" and s["val"][1] == "repeat"]
         r_ok = len(reps) == 1 and once and reps[0]["val"][2][0] == xs[0].ret and reps[0]["val"][2][1] == ("I", Poly.const(n))
